@@ -68,8 +68,11 @@ def rule_taint(ctx):
         steps = list(method_calls(a["body"], "add_taint_step"))
         ok = len(steps) == 1
         if ok:
-            c2 = [fact_str(c).replace(" ", "") for c in (conditions_to(a["body"], steps[0]) or [])]
-            ok = c2 == ["forsinkinstmt.variables_written()", "forsourceinstmt.variables_read()"] and [render(strip(x)).replace(" ", "") for x in steps[0]["args"]] == ["source.name()", "sink.name()"]
+            from pathcond import each_form
+
+            rest_, args_ = each_form(conditions_to(a["body"], steps[0]) or [], steps[0]["args"])
+            c2 = rest_ + args_
+            ok = rest_ == [] and args_ == ["each(stmt.variables_read()).name()", "each(stmt.variables_written()).name()"]
             ctx.check(R, "Substitution/reads-taint-writes", ok, "step %s under %s" % (render(steps[0])[:80], c2), site(TA, steps[0]))
         else:
             ctx.bad(R, "Substitution/reads-taint-writes", "expected one add_taint_step, found %d" % len(steps), site(TA, a))
@@ -79,8 +82,11 @@ def rule_taint(ctx):
         steps = list(method_calls(a["body"], "add_taint_step"))
         ok = len(steps) == 1
         if ok:
-            c2 = [fact_str(c).replace(" ", "") for c in (conditions_to(a["body"], steps[0]) or [])]
-            ok = c2 == ["forsinkinnames", "forsizeindimensions", "forsourceinsize.variables_read()"] and [render(strip(x)).replace(" ", "") for x in steps[0]["args"]] == ["source.name()", "sink"]
+            from pathcond import each_form
+
+            rest_, args_ = each_form(conditions_to(a["body"], steps[0]) or [], steps[0]["args"])
+            c2 = rest_ + args_
+            ok = rest_ == [] and args_ == ["each(each(dimensions).variables_read()).name()", "each(names)"]
             ctx.check(R, "Declaration/dimensions-taint-declared-names", ok, "step under %s" % c2, site(TA, steps[0]))
         else:
             ctx.bad(R, "Declaration/dimensions-taint-declared-names", "expected one add_taint_step", site(TA, a))
@@ -96,9 +102,13 @@ def rule_taint(ctx):
         okb = tb is not None and fb is not None and render(strip(tb)).replace(" ", "") == "cfg.get_true_branch(basic_block)" and render(strip(fb)).replace(" ", "") == "cfg.get_false_branch(basic_block)"
         ctx.check(R, "IfThenElse/both-branch-regions-of-this-block", okb, "true: %s false: %s" % (render(tb) if tb else "?", render(fb) if fb else "?"), site(TA, a))
         if len(steps) == 1:
-            c2 = [fact_str(c).replace(" ", "") for c in (conditions_to(a["body"], steps[0]) or [])]
-            ok = c2 in (["!cond.value().is_some()", "forbodyintrue_branch.iter().chain(false_branch.iter())", "forsinkinbody.variables_written()", "forsourceincond.variables_read()"], ["!cond.value().is_some()", "forbodyincfg.get_true_branch(basic_block).iter().chain(cfg.get_false_branch(basic_block).iter())", "forsinkinbody.variables_written()", "forsourceincond.variables_read()"])
-            ctx.check(R, "IfThenElse/condition-taints-everything-written-in-both-regions", ok and [render(strip(x)).replace(" ", "") for x in steps[0]["args"]] == ["source.name()", "sink.name()"], "step under %s" % c2, site(TA, steps[0]))
+            from pathcond import each_form
+
+            rest_, args_ = each_form(conditions_to(a["body"], steps[0]) or [], steps[0]["args"])
+            c2 = rest_ + args_
+            regions = "cfg.get_true_branch(basic_block).iter().chain(cfg.get_false_branch(basic_block).iter())"
+            ok = rest_ == ["!cond.value().is_some()"] and args_ in (["each(cond.variables_read()).name()", "each(each(%s).variables_written()).name()" % regions], ["each(cond.variables_read()).name()", "each(each(true_branch.iter().chain(false_branch.iter())).variables_written()).name()"])
+            ctx.check(R, "IfThenElse/condition-taints-everything-written-in-both-regions", ok, "step under %s" % c2, site(TA, steps[0]))
         else:
             ctx.bad(R, "IfThenElse/condition-taints-everything-written-in-both-regions", "expected one add_taint_step, found %d" % len(steps), site(TA, a))
     # closure
